@@ -170,13 +170,32 @@ theorem recycle_cases (cfg : Cfg) (o : CacheOps σ) (r2 : Reader σ) (c2 : σ) (
       · exact Or.inl rfl
       · exact Or.inr ⟨trivial, rfl⟩
 
+@[simp] theorem markLent_heap (r : Reader σ) (b : Bool) (id : Nat) : (markLent r b id).heap = r.heap := by
+  unfold markLent; split <;> rfl
+@[simp] theorem markLent_fresh (r : Reader σ) (b : Bool) (id : Nat) : (markLent r b id).fresh = r.fresh := by
+  unfold markLent; split <;> rfl
+@[simp] theorem markLent_cur (r : Reader σ) (b : Bool) (id : Nat) : (markLent r b id).cur = r.cur := by
+  unfold markLent; split <;> rfl
+@[simp] theorem markLent_err (r : Reader σ) (b : Bool) (id : Nat) : (markLent r b id).err = r.err := by
+  unfold markLent; split <;> rfl
+@[simp] theorem markLent_cb (r : Reader σ) (b : Bool) (id : Nat) :
+    (markLent r b id).chunkBegin = r.chunkBegin := by unfold markLent; split <;> rfl
+@[simp] theorem markLent_ce (r : Reader σ) (b : Bool) (id : Nat) :
+    (markLent r b id).chunkEnd = r.chunkEnd := by unfold markLent; split <;> rfl
+@[simp] theorem markLent_blocked (r : Reader σ) (b : Bool) (id : Nat) :
+    (markLent r b id).blocked = r.blocked := by unfold markLent; split <;> rfl
+@[simp] theorem markLent_cache (r : Reader σ) (b : Bool) (id : Nat) : (markLent r b id).cache = r.cache := by
+  unfold markLent; split <;> rfl
+theorem markLent_hview (r : Reader σ) (b : Bool) (id : Nat) : (markLent r b id).hview = r.hview := by
+  unfold markLent; split <;> rfl
+
 /-- `cacheSwap(k)` when the current block is not a data-holding block of base `k` -/
 theorem cacheSwap_spec {o : CacheOps σ} {wf : σ → Prop} (ct : Contract o wf) {cfg : Cfg} {f : File}
     {r r1 : Reader σ} {k : Int} {hit : Bool} (inv : Inv o wf f r)
     (hk : ∀ id, r.cur = some id → (r.heap id).hasData = true → (r.heap id).base ≠ k)
     (h : cacheSwap cfg o r k = .ok (r1, hit)) :
     r1.err = r.err ∧ r1.chunkBegin = r.chunkBegin ∧ r1.chunkEnd = r.chunkEnd ∧ r1.blocked = r.blocked ∧
-    r1.fresh = r.fresh ∧ (r.cache = none → r1 = r ∧ hit = false) ∧ Inv o wf f r1 ∧
+    r1.fresh = r.fresh ∧ (r.cache = none → hit = false ∧ r1.cache = none) ∧ Inv o wf f r1 ∧
     (hit = true → ∃ id, r1.cur = some id ∧ Good f k (r1.heap id) ∧ (r1.heap id).pos = 0 ∧
         (r1.heap id).offBlock = 0) ∧
     (hit = false → r1.heap = r.heap ∧ (r1.cur = none ∨ r1.cur = r.cur) ∧
@@ -185,19 +204,27 @@ theorem cacheSwap_spec {o : CacheOps σ} {wf : σ → Prop} (ct : Contract o wf)
   cases hc : r.cache with
   | none =>
     simp only [hc] at h
-    simp only [Except.ok.injEq, Prod.mk.injEq] at h
-    obtain ⟨h1, h2⟩ := h
-    subst h1 h2
-    have g9 : false = false → r.heap = r.heap ∧ (r.cur = none ∨ r.cur = r.cur) ∧
-        ∀ c1, r.cache = some c1 → ∀ e ∈ o.held c1, e.key ≠ k := by
-      intro _
-      refine ⟨rfl, Or.inr rfl, ?_⟩
-      intro c1 h1; rw [hc] at h1; cases h1
-    exact ⟨rfl, rfl, rfl, rfl, rfl, fun _ => ⟨rfl, rfl⟩, inv, fun h0 => Bool.noConfusion h0, g9⟩
+    split at h
+    · simp only [Except.ok.injEq, Prod.mk.injEq] at h
+      obtain ⟨h1, h2⟩ := h
+      subst h1 h2
+      refine ⟨rfl, rfl, rfl, rfl, rfl, fun _ => ⟨rfl, rfl⟩, ?_, fun h0 => Bool.noConfusion h0,
+        fun _ => ⟨rfl, Or.inl rfl, fun c1 h1 => by cases h1⟩⟩
+      refine ⟨?_, ?_, ?_, ?_, ?_⟩
+      · intro j hj; cases hj
+      · intro j hj; cases hj
+      · intro c' hc'; cases hc'
+      · intro c' hc'; cases hc'
+      · intro c' hc'; cases hc'
+    · simp only [Except.ok.injEq, Prod.mk.injEq] at h
+      obtain ⟨h1, h2⟩ := h
+      subst h1 h2
+      exact ⟨rfl, rfl, rfl, rfl, rfl, fun _ => ⟨rfl, hc⟩, inv, fun h0 => Bool.noConfusion h0,
+        fun _ => ⟨rfl, Or.inr rfl, fun c1 h1 => by rw [hc] at h1; cases h1⟩⟩
   | some c =>
     simp only [hc] at h
     have hwf := inv.cache_wf c hc
-    have g6 : ∀ (R : Reader σ) (b : Bool), (some c = none → R = r ∧ b = false) := by
+    have g6 : ∀ (R : Reader σ) (b : Bool), (some c = none → b = false ∧ R.cache = none) := by
       intro R b h0; cases h0
     split at h
     · rename_i c1 id hg
@@ -206,8 +233,9 @@ theorem cacheSwap_spec {o : CacheOps σ} {wf : σ → Prop} (ct : Contract o wf)
       obtain ⟨hid_lt, hid_cur, hid_good⟩ := inv.held c hc _ hmem
       simp only at hid_lt hid_cur hid_good
       -- the block handed over gets seek(0)
-      cases hp : cachePut o (r.setB id { r.heap id with pos := 0, offBlock := 0 }) c1
-          (r.setB id { r.heap id with pos := 0, offBlock := 0 }).cur with
+      generalize hbl : (cfg.lentGuard && (o.peek r.hview c1 k).1) = bl at h
+      cases hp : cachePut o (markLent (r.setB id { r.heap id with pos := 0, offBlock := 0 }) bl id) c1
+          (markLent (r.setB id { r.heap id with pos := 0, offBlock := 0 }) bl id).cur with
       | error e => rw [hp] at h; cases h
       | ok v =>
         obtain ⟨r2, c2, back, ret⟩ := v
@@ -216,6 +244,8 @@ theorem cacheSwap_spec {o : CacheOps σ} {wf : σ → Prop} (ct : Contract o wf)
         obtain ⟨h1, h2⟩ := h
         subst h1 h2
         obtain ⟨fh, ff, fc, fe, fcb, fce, fbl, fca⟩ := cachePut_fields hp
+        simp only [markLent_heap, markLent_fresh, markLent_cur, markLent_err, markLent_cb, markLent_ce,
+          markLent_blocked, markLent_cache] at fh ff fc fe fcb fce fbl fca
         have hheap : ∀ j, j ≠ id → r2.heap j = r.heap j := by
           intro j hj; rw [fh]; exact setB_other _ _ hj
         have hheap_id : r2.heap id = { r.heap id with pos := 0, offBlock := 0 } := by
@@ -232,15 +262,18 @@ theorem cacheSwap_spec {o : CacheOps σ} {wf : σ → Prop} (ct : Contract o wf)
           exact inv.ids c hc a ((hheld1 a).1 ha).1 b ((hheld1 b).1 hb).1
         -- one Put of the old current block (if it happened)
         have hputcase : ∀ cid hint res, r.cur = some cid →
-            ((r.setB id { r.heap id with pos := 0, offBlock := 0 }).heap cid).hasData = true →
-            o.put (r.setB id { r.heap id with pos := 0, offBlock := 0 }).hview c1 cid hint = some (c2, res) →
+            ((markLent (r.setB id { r.heap id with pos := 0, offBlock := 0 }) bl id).heap cid).hasData = true →
+            o.put (markLent (r.setB id { r.heap id with pos := 0, offBlock := 0 }) bl id).hview c1 cid hint =
+              some (c2, res) →
             wf c2 ∧ (∀ e ∈ o.held c2, e.id < r.fresh ∧ e.id ≠ id ∧ Good f e.key (r.heap e.id)) ∧
               (∀ a ∈ o.held c2, ∀ b ∈ o.held c2, a.id = b.id → a = b) := by
           intro cid hint res hcur hd hput
           have hne : cid ≠ id := fun hh => hid_cur (hh ▸ hcur)
-          have hd' : (r.heap cid).hasData = true := by rw [setB_other _ _ hne] at hd; exact hd
-          have hbase : ((r.setB id { r.heap id with pos := 0, offBlock := 0 }).hview cid).base
+          have hd' : (r.heap cid).hasData = true := by
+            rw [markLent_heap, setB_other _ _ hne] at hd; exact hd
+          have hbase : ((markLent (r.setB id { r.heap id with pos := 0, offBlock := 0 }) bl id).hview cid).base
               = (r.heap cid).base := by
+            rw [markLent_hview]
             simp [Reader.hview, RBlk.view, setB_other _ _ hne]
           have := put_preserves ct (fun e => e.id < r.fresh ∧ e.id ≠ id ∧ Good f e.key (r.heap e.id))
             hwf1 hput hP1
@@ -252,8 +285,8 @@ theorem cacheSwap_spec {o : CacheOps σ} {wf : σ → Prop} (ct : Contract o wf)
           rcases cachePut_cache hp with ⟨_, _, hcc⟩ | ⟨_, cid, hint, ev, hb, hd, hput⟩
           · rcases hcc with hcc | ⟨cid, hint, hb, hd, hput⟩
             · rw [hcc]; exact ⟨hwf1, hP1, hids1⟩
-            · exact hputcase cid hint _ hb hd hput
-          · exact hputcase cid hint _ hb hd hput
+            · exact hputcase cid hint _ (by simpa [Reader.setB] using hb) hd hput
+          · exact hputcase cid hint _ (by simpa [Reader.setB] using hb) hd hput
         have g7 : Inv o wf f { r2 with cache := some c2, cur := some id } := by
           refine ⟨?_, ?_, ?_, ?_, ?_⟩
           · intro j hj; simp only [Option.some.injEq] at hj; subst hj; simp only; rw [ff]; exact hid_lt
@@ -412,15 +445,15 @@ theorem lazyBlock_spec {o : CacheOps σ} {wf : σ → Prop} {f : File} {r : Read
       (∀ c, r.cache = some c → ∀ e ∈ o.held c, e.id ≠ id) ∧
       (∀ j, j ≠ id → r'.heap j = r.heap j) ∧
       r'.cache = r.cache ∧ r'.err = r.err ∧ r'.chunkBegin = r.chunkBegin ∧ r'.chunkEnd = r.chunkEnd ∧
-      r'.blocked = r.blocked := by
+      r'.blocked = r.blocked ∧ r'.lent = r.lent := by
   unfold lazyBlock
   cases hcur : r.cur with
   | some id =>
-    refine ⟨r, id, rfl, hcur, inv.cur_lt id hcur, Nat.le_refl _, ?_, fun _ _ => rfl, rfl, rfl, rfl, rfl, rfl⟩
+    refine ⟨r, id, rfl, hcur, inv.cur_lt id hcur, Nat.le_refl _, ?_, fun _ _ => rfl, rfl, rfl, rfl, rfl, rfl, rfl⟩
     intro c hc e he hh
     exact (inv.held c hc e he).2.1 (by rw [hcur, hh])
   | none =>
-    refine ⟨_, r.fresh, rfl, rfl, by simp [Reader.setB], by simp [Reader.setB], ?_, ?_, rfl, rfl, rfl, rfl, rfl⟩
+    refine ⟨_, r.fresh, rfl, rfl, by simp [Reader.setB], by simp [Reader.setB], ?_, ?_, rfl, rfl, rfl, rfl, rfl, rfl⟩
     · intro c hc e he hh
       have := (inv.held c hc e he).1
       omega
@@ -452,8 +485,9 @@ theorem loadAt_spec {o : CacheOps σ} {wf : σ → Prop} {cfg : Cfg}
       Loaded f off ((loadAt cfg f r off).1.heap id) (loadAt cfg f r off).2 ∧
       Inv o wf f (loadAt cfg f r off).1 ∧ (loadAt cfg f r off).1.err = r.err ∧
       (loadAt cfg f r off).1.chunkBegin = r.chunkBegin ∧ (loadAt cfg f r off).1.chunkEnd = r.chunkEnd ∧
-      (loadAt cfg f r off).1.blocked = r.blocked ∧ (loadAt cfg f r off).1.cache = r.cache := by
-  obtain ⟨r', id, hl, hcur, hlt, hfresh, hnot, hheap, hca, he, hcb, hce, hbl⟩ := lazyBlock_spec inv
+      (loadAt cfg f r off).1.blocked = r.blocked ∧ (loadAt cfg f r off).1.cache = r.cache ∧
+      (loadAt cfg f r off).1.lent = r.lent := by
+  obtain ⟨r', id, hl, hcur, hlt, hfresh, hnot, hheap, hca, he, hcb, hce, hbl, hle⟩ := lazyBlock_spec inv
   obtain ⟨rb1, rb2, rb3⟩ := rebase_facts cfg (r'.heap id) off
   obtain ⟨fb2, fb3, fb4⟩ := failedBlk_facts cfg hcfg (r'.heap id) off
   have hinv : ∀ (b : RBlk), ((b.hasData = true) → Good f b.base b) → Inv o wf f (r'.setB id b) := by
@@ -484,7 +518,7 @@ theorem loadAt_spec {o : CacheOps σ} {wf : σ → Prop} {cfg : Cfg}
   | some m =>
     simp only
     refine ⟨id, by simp [Reader.setB, hcur], ?_, ?_, by simp [Reader.setB, he], by simp [Reader.setB, hcb],
-      by simp [Reader.setB, hce], by simp [Reader.setB, hbl], by simp [Reader.setB, hca]⟩
+      by simp [Reader.setB, hce], by simp [Reader.setB, hbl], by simp [Reader.setB, hca], by simp [Reader.setB, hle]⟩
     · rw [setB_same]
       refine ⟨rb2, rb3, ?_⟩
       rw [hm]
@@ -495,7 +529,7 @@ theorem loadAt_spec {o : CacheOps σ} {wf : σ → Prop} {cfg : Cfg}
   | none =>
     simp only
     refine ⟨id, by simp [Reader.setB, hcur], ?_, ?_, by simp [Reader.setB, he], by simp [Reader.setB, hcb],
-      by simp [Reader.setB, hce], by simp [Reader.setB, hbl], by simp [Reader.setB, hca]⟩
+      by simp [Reader.setB, hce], by simp [Reader.setB, hbl], by simp [Reader.setB, hca], by simp [Reader.setB, hle]⟩
     · rw [setB_same]
       refine ⟨fb2, fb3, ?_⟩
       rw [hm]
@@ -543,7 +577,7 @@ theorem cacheSwap_error {o : CacheOps σ} {wf : σ → Prop} (ct : Contract o wf
     e = .badHint := by
   unfold cacheSwap at h
   cases hc : r.cache with
-  | none => simp only [hc] at h; cases h
+  | none => simp only [hc] at h; split at h <;> cases h
   | some c =>
     simp only [hc] at h
     have hwf := inv.cache_wf c hc
@@ -563,11 +597,14 @@ theorem cacheSwap_error {o : CacheOps σ} {wf : σ → Prop} (ct : Contract o wf
         exact cachePut_error ct hwf1 hp
       · cases h
 
-/-- without a cache `fetch` is the decompression step -/
-theorem fetch_uncached (cfg : Cfg) (o : CacheOps σ) (f : File) {r : Reader σ} (k : Int) (hc : r.cache = none) :
-    fetch cfg o f r k = .ok (loadAt cfg f r k) := by
+/-- without a cache (and no block on loan) `fetch` is the decompression step -/
+theorem fetch_uncached (cfg : Cfg) (o : CacheOps σ) (f : File) {r : Reader σ} (k : Int) (hc : r.cache = none)
+    (hl : r.lent = none) : fetch cfg o f r k = .ok (loadAt cfg f r k) := by
+  have hcond : (cfg.lentGuard && r.cur.isSome && r.lent == r.cur) = false := by
+    rw [hl]
+    cases r.cur <;> simp
   unfold fetch cacheSwap
-  simp only [hc]
+  simp only [hc, hcond, Bool.false_eq_true, if_false]
   unfold nextBlockAt skipCached
   simp only [hc]
 
@@ -599,7 +636,7 @@ theorem fetch_spec {o : CacheOps σ} {wf : σ → Prop} (ct : Contract o wf) {cf
       simp only
       obtain ⟨_, _, hnokey⟩ := hmiss rfl
       rw [nextBlockAt_eq ct inv1 hnokey]
-      obtain ⟨id, hcur, hl, inv2, e2, cb2, ce2, bl2, _⟩ := loadAt_spec (cfg := cfg) hcfg k inv1
+      obtain ⟨id, hcur, hl, inv2, e2, cb2, ce2, bl2, _, _⟩ := loadAt_spec (cfg := cfg) hcfg k inv1
       exact ⟨id, hcur, hl, inv2, e2.trans fe, cb2.trans fcb, ce2.trans fce, bl2.trans fbl⟩
 
 /-! ### simulation -/
@@ -616,7 +653,8 @@ def ExRel {α β : Type} (R : α → β → Prop) : Except Fault α → Except F
 structure W (o : CacheOps σ) (wf : σ → Prop) (f : File) (C U : Reader σ) : Prop where
   invC : Inv o wf f C
   invU : Inv o wf f U
-  ucache : U.cache = none
+  /-- the uncached reader has no cache and no block on loan -/
+  ucache : U.cache = none ∧ U.lent = none
   cb : C.chunkBegin = U.chunkBegin
   ce : C.chunkEnd = U.chunkEnd
   blocked : C.blocked = U.blocked
@@ -659,8 +697,8 @@ theorem fetch_sim {o : CacheOps σ} {wf : σ → Prop} (ct : Contract o wf) {cfg
     (hkC : ∀ id, C.cur = some id → (C.heap id).hasData = true → (C.heap id).base ≠ k) :
     ExRel (FetchRel o wf f C U) (fetch cfg o f C k) (fetch cfg o f U k) := by
   have hC := fetch_spec ct hcfg w.invC hkC
-  rw [fetch_uncached cfg o f k w.ucache]
-  obtain ⟨uid, ucur, ul, uinv, ue, ucb, uce, ubl, uca⟩ := loadAt_spec (cfg := cfg) hcfg k w.invU
+  rw [fetch_uncached cfg o f k w.ucache.1 w.ucache.2]
+  obtain ⟨uid, ucur, ul, uinv, ue, ucb, uce, ubl, uca, ule⟩ := loadAt_spec (cfg := cfg) hcfg k w.invU
   cases hfc : fetch cfg o f C k with
   | error e =>
     rw [hfc] at hC
@@ -673,7 +711,7 @@ theorem fetch_sim {o : CacheOps σ} {wf : σ → Prop} (ct : Contract o wf) {cfg
     simp only at hC
     obtain ⟨cid, ccur, cl, cinv, ce', ccb, cce, cbl⟩ := hC
     obtain ⟨hee, hbe⟩ := cl.blkEq ul
-    refine ⟨hee, ⟨cinv, uinv, by rw [uca]; exact w.ucache, by rw [ccb, ucb]; exact w.cb,
+    refine ⟨hee, ⟨cinv, uinv, ⟨by rw [uca]; exact w.ucache.1, by rw [ule]; exact w.ucache.2⟩, by rw [ccb, ucb]; exact w.cb,
       by rw [cce, uce]; exact w.ce, by rw [cbl, ubl]; exact w.blocked, cid, uid, ccur, ucur, hbe⟩, ce', ue, ?_⟩
     intro c hc
     have : c = cid := by rw [ccur] at hc; exact (Option.some.inj hc).symm
@@ -1156,7 +1194,7 @@ theorem step_sim {o : CacheOps σ} {wf : σ → Prop} (ct : Contract o wf) {cfg 
     · rw [e1, e2]; exact ExRel.same _
   | setCache c hints =>
     simp only [step, Op.uncached]
-    refine ⟨by simp only [s.w.cb, s.w.ce], ⟨⟨?_, ?_, rfl, s.w.cb, s.w.ce, s.w.blocked, s.w.cur⟩, s.err, s.live⟩⟩
+    refine ⟨by simp only [s.w.cb, s.w.ce], ⟨⟨?_, ?_, ⟨rfl, s.w.ucache.2⟩, s.w.cb, s.w.ce, s.w.blocked, s.w.cur⟩, s.err, s.live⟩⟩
     · refine ⟨s.w.invC.cur_lt, s.w.invC.cur_good, ?_, ?_, ?_⟩
       · intro c' hc'
         simp only at hc'
@@ -1216,12 +1254,12 @@ theorem newReader_S {o : CacheOps σ} {wf : σ → Prop} {cfg : Cfg} (hcfg : cfg
     {f : File} {r : Reader σ} (h : newReader o cfg f = .ok (r, .none)) : S o wf f r r := by
   unfold newReader nextBlockAt skipCached at h
   simp only [Except.ok.injEq] at h
-  have inv0 : Inv o wf f (⟨fun _ => {}, 0, none, .none, (0, 0), (0, 0), false, none, []⟩ : Reader σ) := by
+  have inv0 : Inv o wf f (⟨fun _ => {}, 0, none, .none, (0, 0), (0, 0), false, none, [], none⟩ : Reader σ) := by
     refine ⟨?_, ?_, ?_, ?_, ?_⟩ <;> (intro x hx; simp at hx)
-  obtain ⟨id, hcur, hl, inv1, he, _, _, _, hca⟩ := loadAt_spec (cfg := cfg) hcfg 0 inv0
-  rw [h] at hcur hl inv1 he hca
-  simp only at hcur hl inv1 he hca
-  refine ⟨⟨inv1, inv1, hca, rfl, rfl, rfl, id, id, hcur, hcur, BlkEq.refl _⟩, rfl, ?_⟩
+  obtain ⟨id, hcur, hl, inv1, he, _, _, _, hca, hle⟩ := loadAt_spec (cfg := cfg) hcfg 0 inv0
+  rw [h] at hcur hl inv1 he hca hle
+  simp only at hcur hl inv1 he hca hle
+  refine ⟨⟨inv1, inv1, ⟨hca, hle⟩, rfl, rfl, rfl, id, id, hcur, hcur, BlkEq.refl _⟩, rfl, ?_⟩
   intro _ c hc
   have : c = id := by rw [hcur] at hc; exact (Option.some.inj hc).symm
   subst this
